@@ -83,12 +83,68 @@ fn can_reuse_metrics(
     coeffs == Affine::IDENTITY.as_coeffs()
 }
 
+/// Round like [`OtRound`], but fail if the result does not fit the signed 16-bit
+/// field it is headed for instead of silently saturating.
+fn checked_i16(glyph_name: &GlyphName, what: &str, value: f64) -> Result<i16, Error> {
+    let rounded: f64 = value.ot_round();
+    if (i16::MIN as f64..=i16::MAX as f64).contains(&rounded) {
+        Ok(rounded as i16)
+    } else {
+        Err(Error::OutOfBounds {
+            what: format!("'{glyph_name}' {what}"),
+            value: value.to_string(),
+        })
+    }
+}
+
+/// All the coordinates of a path must be representable in glyf
+fn check_coordinates_fit(glyph_name: &GlyphName, path: &BezPath) -> Result<(), Error> {
+    for el in path.elements() {
+        let points = match *el {
+            PathEl::MoveTo(p) | PathEl::LineTo(p) => [Some(p), None, None],
+            PathEl::QuadTo(p1, p2) => [Some(p1), Some(p2), None],
+            PathEl::CurveTo(p1, p2, p3) => [Some(p1), Some(p2), Some(p3)],
+            PathEl::ClosePath => [None; 3],
+        };
+        for point in points.into_iter().flatten() {
+            checked_i16(glyph_name, "point x", point.x)?;
+            checked_i16(glyph_name, "point y", point.y)?;
+        }
+    }
+    Ok(())
+}
+
+/// glyf stores each point as a 16-bit offset from the previous one, the first from (0, 0)
+fn check_point_offsets_fit(glyph_name: &GlyphName, glyph: &SimpleGlyph) -> Result<(), Error> {
+    let (mut last_x, mut last_y) = (0_i32, 0_i32);
+    for point in glyph.contours.iter().flat_map(|c| c.iter()) {
+        let (x, y) = (point.x as i32, point.y as i32);
+        for (what, offset) in [("x", x - last_x), ("y", y - last_y)] {
+            if i16::try_from(offset).is_err() {
+                return Err(Error::OutOfBounds {
+                    what: format!("'{glyph_name}' {what} distance between consecutive points"),
+                    value: offset.to_string(),
+                });
+            }
+        }
+        (last_x, last_y) = (x, y);
+    }
+    Ok(())
+}
+
 fn create_component_ref_gid(
     gid: GlyphId16,
     transform: &Affine,
 ) -> Result<(Component, Bbox), GlyphProblem> {
     // No known source does point anchoring so we just turn transform into a 2x2 + offset
     let [a, b, c, d, e, f] = transform.as_coeffs();
+    let (e_rounded, f_rounded): (f64, f64) = (e.ot_round(), f.ot_round());
+    if [e_rounded, f_rounded]
+        .iter()
+        .any(|v| !(i16::MIN as f64..=i16::MAX as f64).contains(v))
+    {
+        return Err(GlyphProblem::ComponentOffsetOutOfBounds(e, f));
+    }
     let flags = ComponentFlags {
         round_xy_to_grid: true, // ufo2ft defaults to this, match it
         ..Default::default()
@@ -287,9 +343,17 @@ fn compute_deltas(
     let tolerance = 0.5;
 
     // Contour (aka Simple) and Composite both need gvar
-    var_model
+    let deltas = var_model
         .deltas(point_seqs)
-        .map_err(|e| Error::GlyphDeltaError(glyph_name.clone(), e))?
+        .map_err(|e| Error::GlyphDeltaError(glyph_name.clone(), e))?;
+    // the default "deltas" are the absolute positions and are not stored in gvar
+    for (_, deltas) in deltas.iter().filter(|(region, _)| !region.is_default()) {
+        for delta in deltas {
+            checked_i16(glyph_name, "gvar x delta", delta.x)?;
+            checked_i16(glyph_name, "gvar y delta", delta.y)?;
+        }
+    }
+    deltas
         .into_iter()
         .map(|(region, deltas)| {
             // Spec: inferring of deltas for un-referenced points applies only
@@ -395,6 +459,9 @@ impl Work<Context, AnyWorkId, Error> for GlyphWork {
             CheckedGlyph::Contour { name, paths } => {
                 // Convert paths to SimpleGlyphs in parallel so we can get consistent point streams
                 let (locations, bezpaths): (Vec<_>, Vec<_>) = paths.into_iter().unzip();
+                for bezpath in &bezpaths {
+                    check_coordinates_fit(&self.glyph_name, bezpath)?;
+                }
                 let simple_glyphs = SimpleGlyph::interpolatable_glyphs_from_bezpaths(&bezpaths)
                     .map_err(|e| Error::KurboError {
                         glyph_name: self.glyph_name.clone(),
@@ -417,6 +484,7 @@ impl Work<Context, AnyWorkId, Error> for GlyphWork {
                         GlyphProblem::MissingDefault,
                     ));
                 };
+                check_point_offsets_fit(&self.glyph_name, base_glyph)?;
                 context
                     .glyphs
                     .set_unconditionally(Glyph::new(name.clone(), base_glyph.clone()));
@@ -832,6 +900,14 @@ fn compute_composite_bboxes(context: &Context) -> Result<(), Error> {
         let RawGlyph::Composite(composite) = &mut glyph.data else {
             panic!("{glyph_name} is not a composite; we shouldn't be trying to update it");
         };
+        for (what, value) in [
+            ("bbox x min", bbox.min_x()),
+            ("bbox y min", bbox.min_y()),
+            ("bbox x max", bbox.max_x()),
+            ("bbox y max", bbox.max_y()),
+        ] {
+            checked_i16(&glyph_name, what, value)?;
+        }
         composite.bbox = bbox.into(); // delay conversion to Bbox to avoid accumulating rounding error
         context.glyphs.set_unconditionally(glyph);
     }
@@ -1062,6 +1138,44 @@ mod tests {
             panic!("Must be an offset");
         };
         assert_eq!((0, 1), (x, y));
+    }
+
+    #[test]
+    fn values_that_do_not_fit_16_bits_are_errors() {
+        let name = GlyphName::from("test");
+        assert_eq!(checked_i16(&name, "x", 32767.4).unwrap(), 32767);
+        assert_eq!(checked_i16(&name, "x", -32768.0).unwrap(), -32768);
+        for bad in [32767.5, 40000.0, -32769.0, f64::NAN] {
+            assert!(matches!(
+                checked_i16(&name, "x", bad),
+                Err(Error::OutOfBounds { .. })
+            ));
+        }
+
+        assert!(matches!(
+            create_component_ref_gid(GlyphId16::new(1), &Affine::translate((0.0, 32768.0))),
+            Err(GlyphProblem::ComponentOffsetOutOfBounds(..))
+        ));
+
+        let mut path = BezPath::new();
+        path.move_to((40.0, 10.0));
+        path.line_to((40000.0, 10.0));
+        path.line_to((40.0, 690.0));
+        path.close_path();
+        assert!(check_coordinates_fit(&name, &path).is_err());
+
+        // every coordinate fits, but the step from one point to the next doesn't
+        let mut path = BezPath::new();
+        path.move_to((-32768.0, 10.0));
+        path.line_to((460.0, 10.0));
+        path.line_to((460.0, 690.0));
+        path.close_path();
+        check_coordinates_fit(&name, &path).unwrap();
+        let glyph = SimpleGlyph::from_bezpath(&path).unwrap();
+        assert!(matches!(
+            check_point_offsets_fit(&name, &glyph),
+            Err(Error::OutOfBounds { .. })
+        ));
     }
 
     #[test]
